@@ -183,9 +183,9 @@ def main():
         "setup_cmd": "./setup.sh",
         "hooks": {
             "guard": "decaf377_verif",
-            "enable": "none needed: the analysis reads the code as it is (no hooks or instrumentation are compiled into /repo)",
+            "enable": "RUSTFLAGS=\"--cfg decaf377_verif\" (only the runtime demonstration of the recorded C14 finding under seeded/known-C14-isqrt uses it; the static checks read the code as it is and need no hook)",
             "baseline_off_cmd": BASE_OFF,
-            "source_commits": [],
+            "source_commits": ["429b931"],
             "add_only": True,
         },
         "engines": [
